@@ -13,12 +13,13 @@
 //       get_completion_context           opt_ccv(r) == spec_completion_ctx(content_of(file), line)   decorator > function > text fallback
 //       all_args                         the iterator yields posonlyargs ++ args ++ kwonlyargs  (and obeys vstd's iterator laws)
 //       find_enclosing_function / is_inside_function (test-only API): exact; regular parameters ONLY, no class recursion
-//   L2  prelude/completion_ctx_l2.rs (lemma_C18_*), 5 proof canaries + 1 exec canary (@as) below.
+//   L2  prelude/completion_ctx_l2.rs (lemma_C18_*), 6 proof canaries + 1 exec canary (@as) below.
 // ASSUMED here (each stated at its stub):
 //   A-cc1 (discharged) find_signature_end_line: `sig_end_line` IS op_sig_end (prelude/sigend_spec.rs), the contract PROVED for
 //         the real body in unit sig_end (//@stub sig_end); it needs line_index.len() + 10 <= usize::MAX (unchecked `+ 10`)
 //   A-cc2 get_completion_context_from_text is a function `text_ctx` of (text, line) (text scanner 628-986: not under contract)
-//   A-cc3 `name.as_str().starts_with("test_")` is a function `is_test_name` of the name's text
+//   A-cc3 `name.as_str().starts_with("test")` is `is_test_name` of the name's text = the name begins with `test` (prelude/completion_ctx_spec.rs; the meaning of
+//         str::starts_with, as P6 of prelude/strstruct_prims.rs)
 //   A-cc4 get_file_content / get_parsed_ast / get_line_index: functions of (database state, path) / the text / the text;
 //         the line index handed out IS a line index (PROVED for build_line_index in unit line_index) and has at most
 //         usize::MAX - 10 entries (true of every Vec<usize>; Verus has no bound on slice lengths)
@@ -128,8 +129,8 @@ impl FixtureDatabase {
 /*@ extract src/fixtures/resolver.rs find_enclosing_function
 @tags C18 C12
 @ret r
-@wrapexpr 1 `func_def.name.starts_with("test_")` => `Self::vp_is_test_id1(func_def)` with fn vp_is_test_id1(func_def: &rustpython_parser::ast::StmtFunctionDef) -> (r: bool) ensures r == is_test_name(idv(&func_def.name))
-@wrapexpr 2 `func_def.name.starts_with("test_")` => `Self::vp_is_test_id2(func_def)` with fn vp_is_test_id2(func_def: &rustpython_parser::ast::StmtAsyncFunctionDef) -> (r: bool) ensures r == is_test_name(idv(&func_def.name))
+@wrapexpr 1 `func_def.name.starts_with("test")` => `Self::vp_is_test_id1(func_def)` with fn vp_is_test_id1(func_def: &rustpython_parser::ast::StmtFunctionDef) -> (r: bool) ensures r == is_test_name(idv(&func_def.name))
+@wrapexpr 2 `func_def.name.starts_with("test")` => `Self::vp_is_test_id2(func_def)` with fn vp_is_test_id2(func_def: &rustpython_parser::ast::StmtAsyncFunctionDef) -> (r: bool) ensures r == is_test_name(idv(&func_def.name))
 @closure map:1 |arg: &ArgWithDefault| -> (s: String) ensures s@ == pname(*arg)
 @closure map:2 |arg: &ArgWithDefault| -> (s: String) ensures s@ == pname(*arg)
 @sig
@@ -238,7 +239,7 @@ impl FixtureDatabase {
 @tags C18 C12
 @ret r
 @rename find_map vp_find_map
-@wrapexpr 1 `func_name.as_str().starts_with("test_")` => `Self::vp_is_test(func_name)` with fn vp_is_test(func_name: &Identifier) -> (r: bool) ensures r == is_test_name(idv(func_name))
+@wrapexpr 1 `func_name.as_str().starts_with("test")` => `Self::vp_is_test(func_name)` with fn vp_is_test(func_name: &Identifier) -> (r: bool) ensures r == is_test_name(idv(func_name))
 @closure map:1 |arg: &ArgWithDefault| -> (s: String) ensures s@ == pname(*arg)
 @sig
     requires is_line_index(ints(line_index@)), line_index@.len() + 10 <= usize::MAX,
@@ -270,7 +271,7 @@ impl FixtureDatabase {
 @as canary_declared_params_regular_only
 @ret r
 @rename find_map vp_find_map
-@wrapexpr 1 `func_name.as_str().starts_with("test_")` => `Self::vp_is_test2(func_name)` with fn vp_is_test2(func_name: &Identifier) -> (r: bool) ensures r == is_test_name(idv(func_name))
+@wrapexpr 1 `func_name.as_str().starts_with("test")` => `Self::vp_is_test2(func_name)` with fn vp_is_test2(func_name: &Identifier) -> (r: bool) ensures r == is_test_name(idv(func_name))
 @closure map:1 |arg: &ArgWithDefault| -> (s: String) ensures s@ == pname(*arg)
 @sig
     requires is_line_index(ints(line_index@)), line_index@.len() + 10 <= usize::MAX,
@@ -380,6 +381,25 @@ proof fn lemma_C18_def_line_gets_signature_context(name: Identifier, decos: Seq<
     lemma_C18_sig_end_not_before_def_line(s as int, last_sig_ln(s, args, returns, li), first_body_ln(body, li), lines_v(content));
 }
 
+/// C03 / C18 (which functions are tests): pytest's default `python_functions` prefix is `test`, no underscore required -- an
+/// undecorated function named `testlogin` (or just `test`) gives the cursor lines of its range a function context, that of
+/// a TEST (is_fixture false, no scope)
+//@tags C03 C18
+proof fn lemma_C18_test_prefix_without_underscore(name: Identifier, decos: Seq<Expr>, args: CArguments, returns: Option<Box<Expr>>,
+        body: Seq<Stmt>, range: TextRange, content: Seq<char>, tl: usize, li: Seq<usize>)
+    requires idv(&name) == "testlogin"@ || idv(&name) == "test"@ || idv(&name) == "test_login"@, !has_fixture_decorator(decos),
+        lno(li, tsv(tr_start(range))) <= tl <= lno(li, tsv(tr_end(range))),
+    ensures is_test_name(idv(&name)),
+        match spec_func_ctx(name, decos, args, returns, body, range, content, tl, li) {
+            Some(CtxV::Func(f)) => !f.is_fixture && f.scope is None && f.name == idv(&name), _ => false },
+{
+    reveal(is_test_name);
+    reveal_strlit("test"); reveal_strlit("testlogin"); reveal_strlit("test_login");
+    assert("testlogin"@.subrange(0, 4) =~= "test"@);
+    assert("test"@.subrange(0, 4) =~= "test"@);
+    assert("test_login"@.subrange(0, 4) =~= "test"@);
+}
+
 // ---- vacuity guards: each of these must FAIL ---------------------------------------------------------------
 /// a keyword-only parameter is NOT among the declared names
 proof fn canary_kwonly_not_declared(a: CArguments)
@@ -405,6 +425,16 @@ proof fn canary_last_scope_wins(decos: Seq<Expr>, i: int)
         forall|j: int| i < j < decos.len() ==> spec_kw(&#[trigger] decos[j], kw_scope_fn()) is None,
     ensures Some(fixture_scope_of(decos)) == spec_kw(&decos[i], kw_scope_fn()),
 {}
+/// a function whose name is a proper prefix of `test`, or merely contains it, gives a function context
+proof fn canary_tes_or_atest_gets_context(name: Identifier, decos: Seq<Expr>, args: CArguments, returns: Option<Box<Expr>>,
+        body: Seq<Stmt>, range: TextRange, content: Seq<char>, tl: usize, li: Seq<usize>)
+    requires idv(&name) == "tes"@ || idv(&name) == "atest"@, !has_fixture_decorator(decos),
+        lno(li, tsv(tr_start(range))) <= tl <= lno(li, tsv(tr_end(range))),
+    ensures spec_func_ctx(name, decos, args, returns, body, range, content, tl, li) is Some,
+{
+    reveal(is_test_name);
+    reveal_strlit("test"); reveal_strlit("tes"); reveal_strlit("atest");
+}
 /// the assumed specifications in scope are not contradictory
 proof fn canary_false_from_assumptions(e: Expr, tl: usize, li: Seq<usize>, r: bool, ds: Seq<Expr>, sc: FixtureScope, c: Seq<char>, line: u32)
     requires inside_post(e, tl, li, r), scope_post(ds.as_ref(), sc), is_line_index(ints(li)), parse_ok(c),
